@@ -26,7 +26,13 @@ pub fn probe_count(c: &SeqCase) -> Result<u64, String> {
 
 /// effective expiry index for a raw selector: monotone map onto 0..=T
 pub fn eff_k(raw: u64, t: u64) -> u64 {
-    pos((raw & 0xffff) as u16, t as usize) as u64
+    // small selectors name a probe directly (0, 1, 2, ... clamped to T); larger ones are spread
+    // monotonically over 0..=T
+    if raw < 16 {
+        raw.min(t)
+    } else {
+        pos((raw & 0xffff) as u16, t as usize) as u64
+    }
 }
 
 /// Captured ops of a case. `k`: None = no deadline, Some(k) = virtual clock expiring at probe k.
@@ -97,7 +103,7 @@ pub fn raw_events(c: &SeqCase, k: Option<u64>) -> Result<Vec<Ev>, String> {
 /// sequence case with an optional deadline selector
 pub fn seq_case_k(max_len: usize, sub: bool, modes: u8, with_deadline: bool) -> BoxedStrategy<SeqCase> {
     let ks = if with_deadline {
-        prop_oneof![2 => Just(None), 1 => (0u64..6).prop_map(Some), 2 => (0u64..65536).prop_map(Some)].boxed()
+        prop_oneof![2 => Just(None), 1 => (0u64..16).prop_map(Some), 2 => (16u64..65536).prop_map(Some)].boxed()
     } else {
         Just(None).boxed()
     };
